@@ -671,3 +671,191 @@ def fd_grad(f, x, h=1e-5):
         e = np.zeros(x.size); e[i] = h
         g[i] = (f(x + e) - f(x - e)) / (2 * h)
     return g
+
+# --------------------------------------------------------------------------- references for REAL library targets
+# (the library object is built by the check; the densities below are independent numpy re-implementations,
+#  up to an additive constant, always evaluated on copies of the points)
+
+def _gauss2_terms(y, m, C):
+    P = np.linalg.inv(C)
+    r = y - m
+    return float(-0.5 * r @ P @ r), -P @ r
+
+
+class GalleryRef(Target):
+    """cuqi.distribution.DistributionGallery(<name>) re-implemented from its documentation/source formulas."""
+    d = 2
+
+    def __init__(self, which):
+        self.which = which
+        self.name = "lib_" + which
+        self.lib = ("gallery", {"banana": "banana", "funnel": "funnel", "squiggle": "squiggle", "donut": "donut",
+                                "bivgauss": "BivariateGaussian"}[which])
+
+    def lp(self, x):
+        return self._both(x)[0]
+
+    def grad(self, x):
+        return self._both(x)[1]
+
+    def _both(self, x):
+        x = np.array(x, dtype=float, copy=True).ravel()
+        w = self.which
+        if w == "banana":
+            a, b = 2.0, 0.2
+            y = np.array([x[0] / a, x[1] * a + a * b * (x[0] ** 2 + a ** 2)])
+            v, gy = _gauss2_terms(y, np.array([0.0, 4.0]), np.array([[1.0, 0.5], [0.5, 1.0]]))
+            return v, np.array([gy[0] / a + gy[1] * a * b * 2 * x[0], gy[1] * a])
+        if w == "squiggle":
+            y = np.array([x[0], x[1] + math.sin(5 * x[0])])
+            v, gy = _gauss2_terms(y, np.zeros(2), np.array([[2.0, 0.25], [0.25, 0.5]]))
+            return v, np.array([gy[0] + gy[1] * 5 * math.cos(5 * x[0]), gy[1]])
+        if w == "funnel":
+            e = math.exp(-x[1])
+            v = -0.5 * x[1] - 0.5 * x[0] ** 2 * e - x[1] ** 2 / 18.0
+            return float(v), np.array([-x[0] * e, -0.5 + 0.5 * x[0] ** 2 * e - x[1] / 9.0])
+        if w == "donut":
+            r = float(np.linalg.norm(x))
+            v = -(r - 2.6) ** 2 / 0.033
+            return float(v), x * ((2.6 / max(r, 1e-300)) - 1) * 2 / 0.033
+        if w == "bivgauss":
+            s = np.diag(np.linspace(0.5, 1, 2))
+            C = s @ np.array([[1.0, 0.9], [0.9, 1.0]]) @ s
+            return _gauss2_terms(x, np.zeros(2), C)
+        raise KeyError(w)
+
+    def typical(self, rs):
+        w = self.which
+        if w == "banana":
+            y = np.array([0.0, 4.0]) + np.linalg.cholesky(np.array([[1.0, 0.5], [0.5, 1.0]])) @ rs.standard_normal(2)
+            x0 = 2.0 * y[0]
+            return np.array([x0, (y[1] - 2.0 * 0.2 * (x0 ** 2 + 4.0)) / 2.0])
+        if w == "squiggle":
+            y = np.linalg.cholesky(np.array([[2.0, 0.25], [0.25, 0.5]])) @ rs.standard_normal(2)
+            return np.array([y[0], y[1] - math.sin(5 * y[0])])
+        if w == "funnel":
+            v = 3.0 * rs.standard_normal() * 0.5
+            return np.array([math.exp(v / 2) * rs.standard_normal(), v])
+        if w == "donut":
+            th = rs.uniform(0, 2 * math.pi)
+            r = 2.6 + math.sqrt(0.033 / 2) * rs.standard_normal()
+            return r * np.array([math.cos(th), math.sin(th)])
+        s = np.diag(np.linspace(0.5, 1, 2))
+        return np.linalg.cholesky(s @ np.array([[1.0, 0.9], [0.9, 1.0]]) @ s) @ rs.standard_normal(2)
+
+
+class StatBanana(GalleryRef):
+    """exact law of the gallery banana: T(x) = (x0/a, a x1 + a b (x0^2 + a^2)) ~ N([0,4], [[1,.5],[.5,1]]), |det T'| = 1."""
+    def __init__(self, rs=None):
+        super().__init__("banana")
+        self.name = "s_banana"
+        self.m0 = np.array([0.0, 4.0])
+        self.L0 = np.linalg.cholesky(np.array([[1.0, 0.5], [0.5, 1.0]]))
+
+    def draw(self, rs, K):
+        Y = self.m0 + rs.standard_normal((K, 2)) @ self.L0.T
+        X0 = 2.0 * Y[:, 0]
+        return np.column_stack([X0, (Y[:, 1] - 0.4 * (X0 ** 2 + 4.0)) / 2.0])
+
+    def scores(self, X):
+        Y = np.column_stack([X[:, 0] / 2.0, 2.0 * X[:, 1] + 0.4 * (X[:, 0] ** 2 + 4.0)])
+        return np.linalg.solve(self.L0, (Y - self.m0).T).T
+
+    def natural_scale(self):
+        return 1.0
+
+
+class LibGauss(Gauss):
+    """cuqi.distribution.Gaussian(mean, <form>=...) as the target itself."""
+    def __init__(self, rs, d, form):
+        super().__init__(rs, d)
+        self.name = "lib_gauss"
+        self.form = form
+        if form == "cov_scalar":
+            v = float(rs.uniform(0.3, 3.0)); self.C = v * np.eye(d); self.arg = v
+        elif form == "cov_vector":
+            v = rs.uniform(0.3, 3.0, d); self.C = np.diag(v); self.arg = v.copy()
+        elif form == "cov":
+            self.arg = self.C.copy()
+        elif form == "prec":
+            self.arg = np.linalg.inv(self.C); self.arg = 0.5 * (self.arg + self.arg.T); self.C = np.linalg.inv(self.arg)
+        elif form == "sqrtcov":
+            w, V = np.linalg.eigh(self.C)          # symmetric root: R R^T = R^T R = C (either convention)
+            self.arg = (V * np.sqrt(w)) @ V.T
+        elif form == "sqrtprec":
+            w, V = np.linalg.eigh(np.linalg.inv(self.C))
+            self.arg = (V * np.sqrt(w)) @ V.T
+        else:
+            raise KeyError(form)
+        self.C = 0.5 * (self.C + self.C.T)
+        self.P = np.linalg.inv(self.C); self.P = 0.5 * (self.P + self.P.T)
+        self.L = np.linalg.cholesky(self.C)
+        self.lib = ("gauss", form)
+
+
+class GeomLik(LinLik):
+    """y = A par2fun(x) + e with the documented par2fun of a cuqi geometry, implemented here independently:
+    kl / kl_lin : KLExpansion (sine basis, all modes) on arange(N) / linspace(0,1,N)
+    step        : StepExpansion with n_steps = d on a grid with N >= d nodes
+    mapped      : MappedGeometry(Continuous1D(d), map) with map x -> x^3/3 + x or exp(x/2)"""
+    kind = "geom"
+
+    def __init__(self, rs, d, prior, gkind):
+        self.d, self.gkind = d, gkind
+        if gkind in ("kl", "kl_lin"):
+            self.N = d
+            self.decay, self.tau = float(rs.choice([1.0, 1.5, 2.5])), float(rs.choice([1.0, 2.0]))
+            K = np.zeros((d, d))
+            for k in range(d):
+                for i in range(d - 1):
+                    K[k, i] = math.sin(math.pi / d * (i + 1) * (k + 0.5)) / ((i + 1) ** self.decay * self.tau)
+                K[k, d - 1] = (-1) ** k / 2.0 / (d ** self.decay * self.tau)
+            self.K = K
+            self.grid = np.arange(d) if gkind == "kl" else np.linspace(0, 1, d)
+        elif gkind == "step":
+            self.N = d * int(rs.choice([1, 2, 3])) + int(rs.choice([0, 1]))
+            self.unit_grid = bool(rs.uniform() < 0.5)
+            self.grid = np.arange(self.N, dtype=float) if self.unit_grid else np.linspace(0.0, 1.0, self.N)
+            K = np.zeros((self.N, d))
+            x0, Ltot = self.grid[0], self.grid[-1] - self.grid[0]
+            for i in range(d):
+                start, end = x0 + i * Ltot / d, x0 + (i + 1) * Ltot / d
+                if i == d - 1:
+                    end = self.grid[-1]
+                for k, g in enumerate(self.grid):
+                    if (g > start or (i == 0 and g >= start)) and g <= end:
+                        K[k, i] = 1.0
+            self.K = K
+        elif gkind == "mapped":
+            self.N = d
+            self.map_kind = str(rs.choice(["cubic", "exp"]))
+            self.K = None
+        else:
+            raise KeyError(gkind)
+        self.m_out = int(rs.randint(1, d + 2))
+        self.A = rs.standard_normal((self.m_out, self.N)) / math.sqrt(self.N)
+        self.s2 = float(rs.uniform(0.2, 2.0))
+        self.y = self.A @ self.p2f(prior.draw(rs)) + math.sqrt(self.s2) * rs.standard_normal(self.m_out)
+
+    def p2f(self, x):
+        x = np.array(x, dtype=float, copy=True).ravel()
+        if self.K is not None:
+            return self.K @ x
+        return x ** 3 / 3 + x if self.map_kind == "cubic" else np.exp(x / 2)
+
+    def map_fn(self, v):
+        v = np.asarray(v)
+        return v ** 3 / 3 + v if self.map_kind == "cubic" else np.exp(v / 2)
+
+    def fwd(self, x):
+        return self.A @ self.p2f(x)
+
+    def fwd_fun(self, f):
+        return self.A @ np.array(f, dtype=float, copy=True).ravel()
+
+    def jac(self, x):
+        x = np.asarray(x, float).ravel()
+        if self.K is not None:
+            return self.A @ self.K
+        dm = x ** 2 + 1 if self.map_kind == "cubic" else 0.5 * np.exp(x / 2)
+        return self.A * dm[None, :]
